@@ -92,6 +92,7 @@ REQUIRED_THEOREMS = [     # every theorem of the Props module (all MANIFEST-name
     "TapkeeVerif.LleCompose.ex_find",
     "TapkeeVerif.LleCompose.ex_fwd",
     "TapkeeVerif.LleCompose.kltsa_end_to_end",
+    "TapkeeVerif.LleCompose.hlle_end_to_end",
 ]
 
 
